@@ -141,6 +141,9 @@ def build_corpus(fam, tier, seed, grammars=None):
             for s in all_inputs(g):
                 f.write("%s\t%s\n" % (g.id, s.encode("utf-8").hex()))
                 n += 1
+            for line in g.meta.get("synthetic", []):     # inputs described, not spelled (gigabytes): real parsers only
+                f.write("%s\t%s\n" % (g.id, line))
+                n += 1
     # the long inputs (real_extra) are model-checked too, in lean mode: no ghost variables, no exhaustive part
     import copy
     lean = []
